@@ -5,6 +5,7 @@ import Swiftness.Model.Pow
 import Swiftness.Model.Queries
 import Swiftness.Model.Diluted
 import Swiftness.Model.Table
+import Driver.AstLoad
 
 namespace Swiftness.Driver
 open Swiftness Swiftness.Proto
@@ -25,8 +26,31 @@ def transcriptOps (H : Hashes) : Transcript → List String → List Felt → Op
 
 def unit (_ : Unit) : String := ""
 
+/-- a translated layout: composition program, oods program, global-value field names -/
+structure LayoutProgs where
+  name : String
+  composition : Ast.Prog × Nat
+  oods : Ast.Prog × Nat
+  gvFields : List String
+
+structure Ctx where
+  layouts : List LayoutProgs := []
+
+def Ctx.find? (c : Ctx) (n : String) : Option LayoutProgs := c.layouts.find? (·.name == n)
+
+/-- `name:val;name:val` → values in `fields` order (every field must be present exactly once) -/
+def gvArray? (fields : List String) (s : String) : Option (Array Felt) := do
+  let parseKV : String → Option (String × Felt) := fun kv =>
+    match kv.splitOn ":" with
+    | [k, v] => (felt? v).map fun x => (k, x)
+    | _ => none
+  let kvs ← if s == "-" then some [] else (s.splitOn ";").mapM parseKV
+  if kvs.length ≠ fields.length then none else
+  let vals ← fields.mapM fun f => (kvs.find? (·.1 == f)).map (·.2)
+  pure vals.toArray
+
 /-- answer one case line; `none` = malformed line -/
-def answer? (H : Hashes) (_stone6 : Bool) (toks : List String) : Option String :=
+def answer? (ctx : Ctx) (H : Hashes) (_stone6 : Bool) (toks : List String) : Option String :=
   match toks with
   | ["poseidon2", a, b] => do pure ("ok " ++ hx (H.poseidon2 (← felt? a) (← felt? b)))
   | ["poseidonmany", l] => do pure ("ok " ++ hx (H.poseidonMany (← felts? l)))
@@ -80,10 +104,22 @@ def answer? (H : Hashes) (_stone6 : Bool) (toks : List String) : Option String :
     match rest.drop 10 with
     | [nf] => pure ("ok " ++ hx (pi.getHash H _stone6 (← felt? nf)))
     | _ => none
+  | "comp_inner" :: layout :: mask :: coeffs :: point :: tgen :: gv :: rest => do
+    let L ← ctx.find? layout
+    let dp ← match rest with | [] => some #[] | [d] => (nats? d).map (·.toArray) | _ => none
+    let inp : Ast.Inputs := { mask := (← felts? mask).toArray, coeff := (← felts? coeffs).toArray, point := ← felt? point,
+                              tgen := ← felt? tgen, gv := ← gvArray? L.gvFields gv, dp := dp }
+    pure (out hx (Ast.evalProg inp L.composition.1 L.composition.2))
+  | "oods_inner" :: layout :: cols :: oods :: coeffs :: point :: oodsPoint :: tgen :: rest => do
+    let L ← ctx.find? layout
+    let dp ← match rest with | [] => some #[] | [d] => (nats? d).map (·.toArray) | _ => none
+    let inp : Ast.Inputs := { col := (← felts? cols).toArray, oodsv := (← felts? oods).toArray, coeff := (← felts? coeffs).toArray,
+                              point := ← felt? point, oodsPoint := ← felt? oodsPoint, tgen := ← felt? tgen, dp := dp }
+    pure (out hx (Ast.evalProg inp L.oods.1 L.oods.2))
   | _ => none
 
-def answer (H : Hashes) (stone6 : Bool) (line : String) : String :=
-  match answer? H stone6 (line.splitOn " ") with
+def answer (ctx : Ctx) (H : Hashes) (stone6 : Bool) (line : String) : String :=
+  match answer? ctx H stone6 (line.splitOn " ") with
   | some s => s
   | none => "badinput"
 
